@@ -53,17 +53,16 @@ Theorem C12_clade_of_copies_exact :
 Proof. intros unit Hu S gpo gpe tgpe gam dim mx Hok Hd x Hx HL cp. exact (run_tasks_clade unit Hu S gpo gpe tgpe gam dim mx Hok Hd x Hx HL cp). Qed.
 Print Assumptions C12_clade_of_copies_exact.
 
-(* Non-vacuity, evaluated in exact arithmetic under the built-in nucleotide scheme: sequences 1, 2 and 4 are copies and
-   form a clade (tasks (1,2,5) and (5,4,6)); sequences 0 and 3 differ and are merged outside it; the marked merges are
-   diagonal, the run returns, and the other merges are not all-match (terminal gaps are free under this scheme) *)
+(* Non-vacuity, evaluated in exact arithmetic under a nucleotide scheme written out here (match 5, mismatch -4, gap
+   open 8, extension 6, terminal 0, scaled by 2000; unit 1): the scheme passes the check; sequences 1, 2 and 4 are copies
+   and form a clade (tasks (1,2,5) and (5,4,6)); sequences 0 and 3 differ and are merged outside it; the marked merges
+   are diagonal, the run returns, and the other merges are not all-match (terminal gaps are free under this scheme) *)
+Definition c12_m : list (list Z) := map (fun i => map (fun j => if (i =? j)%nat then 10000%Z else (-8000)%Z) (seq 0 5)) (seq 0 5).
 Example C12_clade_instance :
-  match scheme_of Params.PS_DNA with
-  | Some (m, gpo, gpe, tgpe) =>
-    let x := [0; 1; 4; 2; 3; 3; 4; 1]%Z in
-    let y := [0; 1; 2; 3; 3; 1; 0]%Z in let z := [2; 2; 0; 1; 3; 3; 1; 1; 0]%Z in
-    option_map (map (fun e => (snd (fst (fst (fst e))), snd (fst e))))
-      (progressive (AX unitX) (PX unitX m gpo gpe tgpe) [y; x; x; z; x] [(1, 2, 5); (0, 3, 7); (5, 4, 6); (6, 7, 8)]%nat)
-    = Some [(5%nat, repeat 0%Z 8); (7%nat, [33; 33; 0; 0; 0; 0; 0; 0; 0]%Z); (6%nat, repeat 0%Z 8); (8%nat, (repeat 33 8 ++ [0] ++ repeat 34 7)%Z)]
-  | None => False
-  end.
-Proof. vm_compute. reflexivity. Qed.
+  scheme_ok 1 c12_m 16000 12000 0 5000 5 10000 = true /\
+  let x := [0; 1; 4; 2; 3; 3; 4; 1]%Z in
+  let y := [0; 1; 2; 3; 3; 1; 0]%Z in let z := [2; 2; 0; 1; 3; 3; 1; 1; 0]%Z in
+  option_map (map (fun e => (snd (fst (fst (fst e))), snd (fst e))))
+    (progressive (AX 1) (PX 1 c12_m 16000 12000 0) [y; x; x; z; x] [(1, 2, 5); (0, 3, 7); (5, 4, 6); (6, 7, 8)]%nat)
+  = Some [(5%nat, repeat 0%Z 8); (7%nat, [33; 33; 0; 0; 0; 0; 0; 0; 0]%Z); (6%nat, repeat 0%Z 8); (8%nat, (repeat 33 8 ++ [0] ++ repeat 34 7)%Z)].
+Proof. vm_compute. split; reflexivity. Qed.
